@@ -597,3 +597,81 @@ where
         self.0.next().map(|(_, t)| t)
     }
 }
+
+/// Verification hooks: iterator stack injection and read-back. Only compiled with feature
+/// `verif-hooks`.
+#[cfg(feature = "verif-hooks")]
+#[allow(missing_docs)]
+#[doc(hidden)]
+impl<P, T> PrefixMap<P, T> {
+    pub fn __verif_iter(&self, stack: Vec<usize>) -> Iter<'_, P, T> {
+        Iter::new(&self.table, stack)
+    }
+    pub fn __verif_iter_mut(&mut self, stack: Vec<usize>) -> IterMut<'_, P, T> {
+        unsafe { IterMut::new(&self.table, stack) }
+    }
+    pub fn __verif_into_iter(self, stack: Vec<usize>) -> IntoIter<P, T> {
+        IntoIter {
+            table: self.table.into_inner(),
+            nodes: stack,
+        }
+    }
+}
+
+#[cfg(feature = "verif-hooks")]
+#[allow(missing_docs)]
+#[doc(hidden)]
+impl<P, T> Iter<'_, P, T> {
+    pub fn __verif_stack(&self) -> &[usize] {
+        &self.nodes
+    }
+    /// move the stack into a buffer with reserved capacity (content and order unchanged)
+    pub fn __verif_rehome(&mut self, cap: usize) {
+        let mut fresh = Vec::with_capacity(cap.max(self.nodes.len()));
+        for x in self.nodes.iter() {
+            fresh.push(*x);
+        }
+        self.nodes = fresh;
+    }
+}
+
+#[cfg(feature = "verif-hooks")]
+#[allow(missing_docs)]
+#[doc(hidden)]
+impl<P, T> IterMut<'_, P, T> {
+    pub fn __verif_stack(&self) -> &[usize] {
+        &self.nodes
+    }
+    pub fn __verif_rehome(&mut self, cap: usize) {
+        let mut fresh = Vec::with_capacity(cap.max(self.nodes.len()));
+        for x in self.nodes.iter() {
+            fresh.push(*x);
+        }
+        self.nodes = fresh;
+    }
+}
+
+#[cfg(feature = "verif-hooks")]
+#[allow(missing_docs)]
+#[doc(hidden)]
+impl<P, T> IntoIter<P, T> {
+    pub fn __verif_stack(&self) -> &[usize] {
+        &self.nodes
+    }
+    pub fn __verif_rehome(&mut self, cap: usize) {
+        let mut fresh = Vec::with_capacity(cap.max(self.nodes.len()));
+        for x in self.nodes.iter() {
+            fresh.push(*x);
+        }
+        self.nodes = fresh;
+    }
+}
+
+#[cfg(feature = "verif-hooks")]
+#[allow(missing_docs)]
+#[doc(hidden)]
+impl<P, T> Cover<'_, '_, P, T> {
+    pub fn __verif_idx(&self) -> Option<usize> {
+        self.idx
+    }
+}
